@@ -17,6 +17,9 @@
                   (CanNotGetGasPriceInPredicate); GetOwner -> owner_ptr or OwnerIsUnknown; GetCaller /
                   IsCallerExternal from the parent frame pointer with their two errors; the wrapper passes
                   self.tx_offset(), self.chain_id(), self.gas_price(), self.owner_ptr.
+  OWNER-scan      without an Owner policy the owner is known only if every owner-carrying input agrees: on the first
+                  disagreement init_inner sets owner = None and leaves the scan (GM GetOwner then fails with
+                  OwnerIsUnknown); a later input cannot re-seed the owner.
   IMG-init        init_inner pushes, in this order, the transaction id, the base asset id, the balances, the
                   transaction size and the transaction bytes (self.tx.to_bytes()) — which is what makes
                   VM_MEMORY_BASE_ASSET_ID_OFFSET = 32, VM_MEMORY_BALANCES_OFFSET = 64 and tx_offset() =
@@ -267,6 +270,26 @@ def run(F, rep, tier, allfacts):
     pats = [r"call:id\(call:transaction\(arg:self\)", r"base_asset_id", r"^balances$", r"to_be_bytes\(.*size", r"call:to_bytes\(arg:self\.tx\)"]
     ok = len(seq) == 5 and all(re.search(p, s) for p, s in zip(pats, seq))
     rep.check(ok, "IMG-init", "push-order=id,base_asset,balances,size,tx_bytes", where, "stack initialisation writes: %s" % seq)
+    # owner without an Owner policy: known only if *all* owner-carrying inputs agree — on the first disagreement the
+    # scan must set owner = None and stop (a later input must not be able to re-seed it)
+    rep.rule("OWNER-scan", "owner scan: first mismatch sets owner = None and leaves the loop; owner is assigned Some only from None")
+    ne = [(i, [describe(f, a, depth=6) for a in args]) for i, c, args, *_ in calls(f) if callee_matches(c, r"cmp::PartialEq(<.*>)?>?::ne$|PartialEq::ne$") and any("input_owner(" in describe(f, a, depth=6) for a in args)]
+    okown = len(ne) == 1 and any(re.match(r"^var:owner@Some", a) for a in ne[0][1])
+    if okown:
+        from fvlib.core import bool_consumers
+        bc = bool_consumers(f, ne[0][0])
+        okown = len(bc) == 1
+        if okown:
+            _, differs, same = bc[0]
+            dom = cfg.dominators()
+            heads = [d for d in dom[ne[0][0]] if f["bbs"][d]["t"][0] == "call" and callee_matches(f["bbs"][d]["t"][1], r"Iterator>?::next$")]
+            heads.sort(key=lambda d: len(dom[d]), reverse=True)
+            dn = __import__("fvlib.core", fromlist=["dbg_name"]).dbg_name
+            none_set = [i for i, j, p, rv, line in assignments(f) if len(p) == 1 and dn(f, p[0]) == "owner" and i in cfg.reachable_incl(differs) and
+                        ((rv[0] == "agg" and rv[2] == "None") or (rv[0] == "use" and describe(f, rv[1], depth=4).startswith("agg:Option::None")))]
+            okown = bool(heads) and bool(none_set) and heads[0] not in cfg._reach_from([differs], avoid=set()) and heads[0] in cfg.reachable_incl(same)
+    rep.check(okown, "OWNER-scan", "init_inner:mismatch->None+break", where, "owner comparisons %s" % ne)
+
     c1 = F.const("fuel_vm::consts::VM_MEMORY_BASE_ASSET_ID_OFFSET")
     c2 = F.const("fuel_vm::consts::VM_MEMORY_BALANCES_OFFSET")
     rep.check(c1 == 32 and c2 == 64, "IMG-init", "BASE_ASSET_ID_OFFSET=32;BALANCES_OFFSET=64", None, "constants %s %s" % (c1, c2))
